@@ -120,17 +120,25 @@ def present(pres, vals, names=None):
     if pres == 'intdict':
         names = list(range(n, 0, -1)); d = dict(zip(names, vals))
         return d, None
+    if pres == 'falsynames':     # names that are falsy in Python: the integer 0 (falsynames) / the empty string (falsydict)
+        names = names_of(pres, n); d = dict(zip(names, vals))
+        return names, d.__getitem__
+    if pres == 'falsydict':
+        names = names_of(pres, n); d = dict(zip(names, vals))
+        return d, None
     raise KeyError(pres)
 
 
 def named(pres):
-    return pres in ('nv', 'dict', 'intnames', 'intdict')
+    return pres in ('nv', 'dict', 'intnames', 'intdict', 'falsynames', 'falsydict')
 
 
 def names_of(pres, n):
     if pres in ('nv', 'dict'): return list(NAMES[:n])
     if pres == 'intnames': return list(range(1, n + 1))
     if pres == 'intdict': return list(range(n, 0, -1))
+    if pres == 'falsynames': return list(range(n))                       # integer names including 0 (homogeneous: CKK sorts the names)
+    if pres == 'falsydict': return (list(NAMES[:n - 1]) + [''])          # string names including the empty string
     return None
 
 
@@ -138,6 +146,7 @@ def names_of(pres, n):
 
 def zsum(l):
     l = list(l)
+    if len(l) == 1: return l[0]
     return z3.Sum(l) if l else z3.IntVal(0)
 
 
